@@ -690,6 +690,19 @@ class GroupCoordinator(BaseCoordinator):
                     exc = task.exception()
                     if exc:
                         await self._push_error_to_user(exc)
+                        # The user has seen the error. Start the failed task
+                        # again, or the same error would be raised on every
+                        # iteration while nobody heartbeats or refreshes
+                        # commit points anymore.
+                        if self._closing.done():
+                            break
+                        if task is self._heartbeat_task:
+                            self._heartbeat_task = None
+                            if not self.need_rejoin(subscription):
+                                # Otherwise the rejoin will start it
+                                self._start_heartbeat_task()
+                        elif task is self._commit_refresh_task and assignment.active:
+                            self.start_commit_offsets_refresh_task(assignment)
 
         # Closing finallization
         if assignment is not None:
